@@ -63,8 +63,8 @@ from typing import Any, Iterator, Optional
 
 import numpy as np
 
-DT = {"i64": np.int64, "f32": np.float32, "bool": np.bool_}
-NUMERIC = ("i64", "f32")
+DT = {"i64": np.int64, "f32": np.float32, "bool": np.bool_, "f64": np.float64, "i32": np.int32, "f16": np.float16}
+NUMERIC = ("i64", "f32", "f64", "i32", "f16")  # (the last three only through `retype`: the generators draw i64 / f32)
 N = 3  # base vector length
 
 ONNX_NAME = {
@@ -362,7 +362,7 @@ class _Gen:
             if a is None:
                 return
             t = self.tyof(a)
-            to = rng.choice([d for d in DT if d != t[0]])
+            to = rng.choice([d for d in ("i64", "f32", "bool") if d != t[0]])
             self.add("Cast", [a], attrs={"to": to}, tys=[ty(to, t[1], t[2])])
             return
         if choice == "where":
@@ -1126,9 +1126,9 @@ def random_binding(prog, rng: random.Random, index: Optional[int] = None) -> dic
             vals = [rng.randint(0, 3) for _ in range(cnt)]
         elif n["attrs"].get("range") == "special":
             vals = [rng.choice([0.0, -0.0, 1.0, -1.5, 2.0, -3.0, 0.5]) for _ in range(cnt)]
-        elif t[0] == "i64":
+        elif t[0] in ("i64", "i32"):
             vals = [rng.randint(-4, 4) for _ in range(cnt)]
-        elif t[0] == "f32":
+        elif t[0] in ("f32", "f64", "f16"):
             vals = [rng.randint(-6, 6) / 2.0 for _ in range(cnt)]
         else:
             vals = [rng.random() < 0.5 for _ in range(cnt)]
@@ -2019,8 +2019,40 @@ def emission_stats(em) -> dict:
 
 
 # ------------------------------------------------------------------------------------- runtimes
+_REMOTE = [None]
+
+
+def _remote():
+    """The onnxruntime child process (harness/lib_ort_worker.py), unless C01_ORT_INPROCESS=1 or it cannot start."""
+    import os
+
+    if os.environ.get("C01_ORT_INPROCESS") == "1":
+        return None
+    if _REMOTE[0] is None:
+        try:
+            from harness.lib_ort_worker import RemoteOrt
+
+            r = RemoteOrt()
+            r._start()
+            _REMOTE[0] = r
+            import atexit
+
+            atexit.register(r.close)
+        except Exception:  # noqa: BLE001
+            _REMOTE[0] = False
+    return _REMOTE[0] or None
+
+
+def ort_crashes() -> int:
+    return _REMOTE[0].crashes if _REMOTE[0] else 0
+
+
 def ort_session(model):
-    """onnxruntime session with graph optimisations disabled: ('ok', session) or ('load-err', message)."""
+    """onnxruntime session with graph optimisations disabled: ('ok', session) or ('load-err', message).
+    The session lives in a child process: a native crash of onnxruntime is a 'load-err' / 'run-err' of that case."""
+    rem = _remote()
+    if rem is not None:
+        return rem.load(model.SerializeToString())
     import onnxruntime as ort
 
     so = ort.SessionOptions()
@@ -2035,6 +2067,8 @@ def ort_session(model):
 
 
 def ort_run(sess, feeds):
+    if isinstance(sess, tuple):  # handle of a session in the child process
+        return _REMOTE[0].run(sess, feeds)
     try:
         return "ok", sess.run(None, feeds)
     except Exception as e:  # noqa: BLE001
@@ -2913,3 +2947,76 @@ def variadic_programs() -> Iterator[tuple[dict, str]]:
                     out = (add("Add", [(lp, 0), (lp, 1)], tys=[F]), 0)
                 opset = 18 if kind == "Concat" and k > 1 else 17
                 yield {"nodes": nodes, "outputs": [list(out)], "opset": opset}, f"{kind}x{k}@{place}"
+
+
+def upgrade_programs() -> Iterator[tuple[dict, str]]:
+    """Programs written at opset 17 whose bodies hold an operator whose definition CHANGES in a later version
+    (Split with explicit sizes: since 18 the sizes are an input next to a new `num_outputs` attribute) — for the
+    conversion route `Graph.with_opset(newer)`: the node inside an If branch, a Loop body, a Loop body inside an
+    If branch, and (control) in the main graph.  Yields (prog, tag)."""
+    V, B_, S = ty("i64", [N]), ty("bool", []), ty("i64", [])
+    for place in ("main", "if", "loop", "if-loop", "main/equal", "if/equal", "loop/equal", "if-loop/equal"):
+        equal = place.endswith("/equal")  # Split without sizes: at 18 the converter has to add `num_outputs`
+        place = place.split("/")[0]
+        nodes: list[dict] = []
+
+        def add(op, ins=(), subs=(), attrs=None, tys=()):
+            nodes.append({"op": op, "ins": [list(r) if r else None for r in ins], "subs": list(subs), "attrs": dict(attrs or {}), "ty": [list(t) for t in tys]})
+            return len(nodes) - 1
+
+        x = add("arg", attrs={"role": "main"}, tys=[V])
+        c = add("arg", attrs={"role": "main"}, tys=[B_])
+        n = add("arg", attrs={"role": "main", "range": "trip"}, tys=[S])
+        sizes = add("Constant", attrs={"value": [1, 2], "uid": 1, "layout": "C"}, tys=[ty("i64", [2])])
+
+        def swap(base):
+            if equal:
+                sp = add("Split", [base, None], attrs={"axis": 0, "outputs": N}, tys=[ty("i64", [1])] * N)
+                return (add("Concat", [(sp, 2), (sp, 0), (sp, 1)], attrs={"axis": 0}, tys=[V]), 0)
+            sp = add("Split", [base, (sizes, 0)], attrs={"axis": 0, "outputs": 2}, tys=[ty("i64", [1]), ty("i64", [2])])
+            return (add("Concat", [(sp, 1), (sp, 0)], attrs={"axis": 0}, tys=[V]), 0)
+
+        def loop(init):
+            it = add("arg", attrs={"role": "formal"}, tys=[ty("i64", [], True)])
+            cn = add("arg", attrs={"role": "formal"}, tys=[ty("bool", [], True)])
+            a = add("arg", attrs={"role": "formal"}, tys=[V])
+            r = swap((a, 0))
+            return (add("Loop", [(n, 0), None, init], [{"args": [it, cn, a], "res": [[cn, 0], list(r)]}], tys=[V]), 0)
+
+        def iff(t, e):
+            return (add("If", [(c, 0)], [{"args": [], "res": [list(t)]}, {"args": [], "res": [list(e)]}], tys=[V]), 0)
+
+        if place == "main":
+            out = swap((x, 0))
+        elif place == "if":
+            out = iff(swap((x, 0)), (x, 0))
+        elif place == "loop":
+            out = loop((x, 0))
+        else:
+            out = iff(loop((x, 0)), (x, 0))
+        yield {"nodes": nodes, "outputs": [list(out)], "opset": 17}, place + ("/equal" if equal else "")
+
+
+RETYPE_SAFE = {"arg", "Add", "Sub", "Mul", "Neg", "Identity", "If", "Loop", "Scan"}
+
+
+def retype(prog, dtype: Optional[str] = None, length: Optional[int] = None) -> Optional[dict]:
+    """The same program over another element type and / or vector length: every `i64` VECTOR type (`[N]`, `[2, N]`)
+    becomes (`dtype`, `[length]` / `[2, length]`) — `length = 0` gives zero-length tensors; scalars (trip counts,
+    conditions) stay.  Only for programs over the type-generic operators (`RETYPE_SAFE`) without constants of the
+    retyped kind; the result is re-derived by `typecheck`.  None when the program does not qualify."""
+    if any(n["op"] not in RETYPE_SAFE and not (n["op"] == "Constant" and n["ty"][0][1] == []) for n in prog["nodes"]):
+        return None
+
+    def conv(t):
+        t = list(t)
+        if t[0] == "i64" and not t[2] and len(t[1]) >= 1 and t[1][-1] == N:
+            return [dtype or "i64", t[1][:-1] + [N if length is None else length], t[2]]
+        return t
+
+    out = json.loads(json.dumps(prog))
+    for n in out["nodes"]:
+        n["ty"] = [conv(t) for t in n["ty"]]
+    if check_wellformed(out) or typecheck(out):
+        return None
+    return out
